@@ -219,6 +219,10 @@ Definition c_add (a b : contrast) : contrast :=
 Definition c_scale (k : Q) (a : contrast) : contrast :=
   mkC (map (fun x => x * k) (c_eff a)) (map (map (fun x => x * (k * k))) (c_var a)) (c_dof a).
 
-(* labs.glm.contrast.stat, multi-row F: mahalanobis(effect - baseline, np.maximum(variance, tiny)):
-   the floor is applied element-wise to the whole covariance matrix (as coded) *)
-Definition labs_floor (tiny : Q) (V : list (list Q)) : list (list Q) := map (map (fun x => Qmax x tiny)) V.
+(* Multi-row F (one voxel), both implementations, as coded after /repo 552d8de:
+     fmri.glm.Contrast.stat : multiple_mahalanobis(effect - baseline, variance) / dim
+                              = sum_ij d_i d_j W_ij / dim,  W = LAPACK getrf/getri inverse of the variance
+     labs.glm.contrast.stat : mahalanobis(effect - baseline, variance) / dim       (no floor on the matrix)
+                              fff_mahalanobis: dpotrf  S = L L^t;  dtrsv  y = L^-1 d;  ssd(y) = sum y_i^2
+   The ring-generic definitions and the theorem that the two agree are in Quad.v
+   (fmri_F, labs_F); the Q instances used by the correspondence are in Exec.v. *)
